@@ -25,6 +25,7 @@ import (
 	"pgregory.net/rapid"
 
 	"verifharness/canon"
+	"verifharness/gen"
 	"verifharness/stats"
 )
 
@@ -100,6 +101,10 @@ func fill(rt *rapid.T, v reflect.Value, depth int, label string) {
 			v.Set(reflect.Zero(t)) // nil
 		case mode == 1:
 			v.Set(reflect.MakeSlice(t, 0, 0)) // empty
+		case mode == 2 && t.Elem().Kind() == reflect.Uint8 && rapid.IntRange(0, 3).Draw(rt, label+"/big") == 0:
+			// byte strings at the size boundaries of the formats that carry them (16-bit and 17-bit lengths)
+			n := rapid.SampledFrom([]int{65535, 65536, 131071, 131072, 200000}).Draw(rt, label+"/bigLen")
+			v.SetBytes(gen.Expand(rapid.IntRange(0, 3).Draw(rt, label+"/class"), rapid.Uint64().Draw(rt, label+"/seed"), n))
 		default:
 			n := rapid.IntRange(1, 3).Draw(rt, label+"/n")
 			if depth <= 0 && t.Elem().Kind() != reflect.Uint8 && t.Elem().Kind() != reflect.String {
@@ -334,6 +339,16 @@ func copyOps(ptr reflect.Value) map[string]func() reflect.Value {
 	if m := ptr.MethodByName("DeepCopyInto"); m.IsValid() {
 		ops["DeepCopyInto"] = func() reflect.Value {
 			out := reflect.New(ptr.Type().Elem())
+			m.Call([]reflect.Value{out})
+			return out
+		}
+	}
+	if m := ptr.MethodByName("DeepCopyInto"); m.IsValid() && ptr.Type().Elem().Kind() == reflect.Struct {
+		// the "detach" idiom: start from a shallow copy (which still shares every slice, map and pointer with the
+		// source) and let DeepCopyInto replace what is shared
+		ops["DeepCopyInto(shallow copy)"] = func() reflect.Value {
+			out := reflect.New(ptr.Type().Elem())
+			out.Elem().Set(ptr.Elem())
 			m.Call([]reflect.Value{out})
 			return out
 		}
